@@ -78,6 +78,7 @@ def raw_path(ctx, tier):
     # counted repetitions (single RepMin / RepMinMax nodes on the raw path) whose iterations touch the stack
     texts += ['letter = { \'a\'..\'c\' }\nentry = { PUSH(letter) ~ ":" }\nmain = { entry{1,3} ~ letter ~ POP }\nmost = { entry{,2} ~ letter ~ POP }\n'
               'ex = ${ (PUSH("a") ~ ":"){2} ~ POP ~ POP? }\nmn = ${ (PUSH("a" | "b") ~ ":"){1,} ~ PEEK }\ndr = ${ PUSH("a") ~ PUSH("b") ~ (DROP ~ ":"){,2} ~ PEEK }',
+              'COMMENT = { "#" }\nWHITESPACE = { " " }\nit = @{ "x"+ }\nbounded = { it{2,3} }\nexact = { it{2} }\nupto = { it{,2} ~ "." }',
               'item = { "x" }\nlist = { item{2,3} ~ "." }\nopt2 = { ("x" | "y"){,2} ~ "x"? }\nnest = { (item{1,2} ~ ","){1,2} }']
     rng = Rng(777)
     cand = [grammar.rand_grammar(rng.fork("x%d" % i)) for i in range(40 if tier == "quick" else 300)]
